@@ -15,6 +15,26 @@
 #include <sys/wait.h>
 #include <unistd.h>
 
+#include <cstring>
+#include <malloc.h>
+#include <new>
+// poison freed memory (poor man's use-after-free detector for operation states)
+void* operator new(std::size_t n)
+{
+    void* p = std::malloc(n ? n : 1);
+    if (!p) throw std::bad_alloc();
+    return p;
+}
+void operator delete(void* p) noexcept
+{
+    if (p)
+    {
+        std::memset(p, 0xDD, malloc_usable_size(p));
+        std::free(p);
+    }
+}
+void operator delete(void* p, std::size_t) noexcept { operator delete(p); }
+
 using namespace c03;
 namespace tt = pika::this_thread::experimental;
 using Box = ex::unique_any_sender<V>;
@@ -219,6 +239,25 @@ static void run_terminal(Sender&& s, CaseOut& co)
     co.same = o.same;
 }
 
+// mode rd: the operation state lives on the heap and is destroyed from inside the terminal
+// receiver (what start_detached does; allowed by the sender contract: after a completion signal
+// the state may be gone).  Freed memory is poisoned (operator delete below), so an adaptor that
+// touches its operation state after signalling reads garbage instead of getting away with it.
+template <class Rcv = term_rcv, class Sender>
+static void run_terminal_destroy(Sender&& s, CaseOut& co)
+{
+    Obs o;
+    using OS = decltype(ex::connect(std::forward<Sender>(s), Rcv{&o}));
+    OS* os = new OS(pika::detail::with_result_of([&] { return ex::connect(std::forward<Sender>(s), Rcv{&o}); }));
+    o.on_first = [os] { delete os; };
+    ex::start(*os);
+    g_comp.wait_idle();
+    if (o.n.load() == 0) delete os;
+    co.r = o.result();
+    co.n = o.n.load();
+    co.same = o.same;
+}
+
 static void finish_case(char const* id, CaseOut& co)
 {
     g_comp.wait_idle();
@@ -240,6 +279,7 @@ static void run_case(std::string const& id, std::string const& mode, std::string
     {
         Sx x = parse_sx(sx);
         if (mode == "run") { run_terminal(build(x, nullptr), co); }
+        else if (mode == "rd") { run_terminal_destroy(build(x, nullptr), co); }
         else if (mode == "sw")
         {
             try
@@ -483,7 +523,7 @@ int main(int argc, char** argv)
         // the failing-input search has succeeded many times over: do not spend minutes on more
         // immediate aborts of sync_wait / start_detached cases are cheap (and include the known F18): only
         // hangs and deaths of plain pipelines count against the budget
-        if ((std::string(what) == "hang" || jobs[i].mode == "run") && ++deaths >= 12)
+        if ((std::string(what) == "hang" || jobs[i].mode == "run" || jobs[i].mode == "rd") && ++deaths >= 12)
         {
             std::printf("SKIPPED PIPE %zu cases after %d abnormal terminations\n", jobs.size() - next, deaths);
             std::fflush(stdout);
